@@ -11,7 +11,8 @@ import impl
 
 RULE = ("three generator classes x random circuits (1-6 components, 1-4 ports): `unitary` = exact rational Cayley "
         "unitaries with every free pin exposed, `passive` = dyadic contractions with random partial exposure, "
-        "`symmetric` = S = S^T; resonant (ill-conditioned) lossless circuits are skipped and counted; "
+        "`symmetric` = S = S^T; `unitary-sweep` = lossless circuits with tunable mirrors (reflectivity t, non-reciprocal phase g, "
+        "reciprocal exactly at g = 0) solved point by point on one solver and then swept; resonant (ill-conditioned) lossless circuits are skipped and counted; "
         "distinct = distinct circuit; non-trivial = at least two components and one link")
 TRUSTED = ["numpy SVD / matrix products used by the oracle", "numpy global reference solve (conditioning filter only)"]
 ASSUMPTIONS = ["every inner system met by the elimination loop is invertible",
@@ -89,11 +90,12 @@ def check(ctx, circ, cls, cond):
     return True
 
 
-def mirror_S(t):
+def mirror_S(t, g=0):
     from fractions import Fraction as F
     r = 2 * t / (1 + t * t)
     tau = (1 - t * t) / (1 + t * t)
-    return [[(r, F(0)), (F(0), tau)], [(F(0), tau), (r, F(0))]]
+    er, ei = (1 - g * g) / (1 + g * g), 2 * g / (1 + g * g)
+    return [[(r, F(0)), (-tau * ei, tau * er)], [(tau * ei, tau * er), (r, F(0))]]
 
 
 def sweep_case(rng, nmax):
@@ -107,13 +109,20 @@ def sweep_case(rng, nmax):
     ts = [F(rng.randint(-6, 6), 8) for _ in range(n)]
     if rng.random() < 0.6:
         ts[0] = F(0)
-    return circ, mirrors, ts
+    # non-reciprocal phase of the mirrors: zero (exactly reciprocal parts) at the first point most of the time
+    gs = [F(0) if rng.random() < 0.4 else F(rng.randint(-6, 6), 8) for _ in range(n)]
+    if rng.random() < 0.7:
+        gs[0] = F(0)
+    return circ, mirrors, ts, gs
 
 
-def check_sweep(ctx, circ, mirrors, ts):
+def check_sweep(ctx, circ, mirrors, ts, gs=None):
     L = impl.lk()
     TM = impl.tunable_mirror_class()
-    replay = {"circuit": gen.circuit_json(circ), "class": "unitary-sweep", "mirrors": mirrors, "ts": [gen.frac_str(t) for t in ts]}
+    from fractions import Fraction as F
+    gs = [F(0)] * len(ts) if gs is None else gs
+    replay = {"circuit": gen.circuit_json(circ), "class": "unitary-sweep", "mirrors": mirrors, "ts": [gen.frac_str(t) for t in ts],
+              "gs": [gen.frac_str(g) for g in gs]}
     sts = []
     for c, comp in enumerate(circ["comps"]):
         if c in mirrors:
@@ -130,7 +139,9 @@ def check_sweep(ctx, circ, mirrors, ts):
             sol.connect(sts[a], p, sts[b], q)
         for (nm, c, p) in circ["exposed"]:
             sol.map_pins({L.Pin(nm): (sts[c], L.Pin(p))})
-        mod = sol.solve(t=np.array([float(t) for t in ts]))
+        # the same solver is first solved point by point (each solve sees what the previous one left behind), then swept
+        Tseq = [impl.solved_matrix(sol.solve(t=float(t), g=float(g)), cs.exposed_names(circ))[0] for t, g in zip(ts, gs)]
+        mod = sol.solve(t=np.array([float(t) for t in ts]), g=np.array([float(g) for g in gs]))
         T = impl.solved_matrix(mod, cs.exposed_names(circ))
     except Exception as e:  # noqa
         if impl.outcome_class(e) == "singular":
@@ -139,7 +150,7 @@ def check_sweep(ctx, circ, mirrors, ts):
         ctx.violation(f"C08:sweep-solve-{impl.outcome_class(e)}", f"sweep solve raised {type(e).__name__}", replay)
         return False
     for k, t in enumerate(ts):
-        conc = {"comps": [dict(comp, S=mirror_S(t)) if c in mirrors else comp for c, comp in enumerate(circ["comps"])],
+        conc = {"comps": [dict(comp, S=mirror_S(t, gs[k])) if c in mirrors else comp for c, comp in enumerate(circ["comps"])],
                 "links": circ["links"], "exposed": circ["exposed"]}
         _, cond, _, _ = gen.reference_solve(conc)
         if cond > 1e5:
@@ -150,6 +161,11 @@ def check_sweep(ctx, circ, mirrors, ts):
         d = float(np.max(np.abs(Tk.conj().T @ Tk - np.eye(n)))) if n else 0.0
         if not (d <= 1e-9 * max(1.0, cond) ** 2):
             ctx.violation("C08:not-unitary-in-sweep", f"lossless circuit, sweep point {k} (t={t}): |S^H S - 1| = {d:.3e}", replay)
+            return False
+        Tk = Tseq[k]
+        d = float(np.max(np.abs(Tk.conj().T @ Tk - np.eye(n)))) if n else 0.0
+        if not (d <= 1e-9 * max(1.0, cond) ** 2):
+            ctx.violation("C08:not-unitary-on-resolve", f"lossless circuit, solve number {k + 1} of the same solver (t={t}, g={gs[k]}): |S^H S - 1| = {d:.3e}", replay)
             return False
     return True
 
@@ -166,17 +182,18 @@ def run(ctx):
         sc = sweep_case(rng, nmax)
         if sc is None:
             continue
-        circ, mirrors, ts = sc
-        ctx.case(("unitary-sweep", gen.circuit_json(circ), mirrors, [str(t) for t in ts]), nontrivial=cs.nontrivial(circ),
-                 tags=["class:unitary-sweep"] + (["first-point-zero"] if ts[0] == 0 else []))
-        check_sweep(ctx, circ, mirrors, ts)
+        circ, mirrors, ts, gs = sc
+        ctx.case(("unitary-sweep", gen.circuit_json(circ), mirrors, [str(t) for t in ts], [str(g) for g in gs]), nontrivial=cs.nontrivial(circ),
+                 tags=["class:unitary-sweep"] + (["first-point-zero"] if ts[0] == 0 else []) + (["first-point-reciprocal"] if gs[0] == 0 else [])
+                 + (["non-reciprocal-later"] if gs[0] == 0 and any(g != 0 for g in gs[1:]) else []))
+        check_sweep(ctx, circ, mirrors, ts, gs)
 
 
 def replay(ctx, data):
     circ = gen.circuit_from_json(data["circuit"])
     if data["class"] == "unitary-sweep":
         from fractions import Fraction as F
-        check_sweep(ctx, circ, data["mirrors"], [F(t) for t in data["ts"]])
+        check_sweep(ctx, circ, data["mirrors"], [F(t) for t in data["ts"]], [F(g) for g in data["gs"]] if "gs" in data else None)
         if ctx.violations:
             return False, ctx.violations[0]["what"]
         return True, "unitary at every sweep point"
